@@ -62,6 +62,7 @@ func limiterBurst(rounds int) (res burstResult) {
 				seqPassed++
 			}
 		}
+		// many other clients in the interval that is about to end (its counters go into the log record)
 		// the same requests at the same time
 		var wg sync.WaitGroup
 		var mu sync.Mutex
@@ -82,6 +83,11 @@ func limiterBurst(rounds int) (res burstResult) {
 		}
 		close(gate)
 		wg.Wait()
+		// the crowd of the interval that ends at the next round: a large record to log
+		for k := 0; k < 3000; k++ {
+			h := map[string]string{"X-Forwarded-For": fmt.Sprintf("2001:db8:1::%x", k)}
+			conc.Do("GET", "/livesim2/none", nil, h)
+		}
 		res.n += 2 * burst
 		res.passed = append(res.passed, passed)
 		if seqPassed != max {
